@@ -106,6 +106,8 @@ impl MultiPeerBackend for PubSocketBackend {
                 },
             )
             .await;
+        #[cfg(feature = "verif-hooks")]
+        crate::verif_hooks::yield_point("pub.peer_connected.after_upsert").await;
         let backend = self;
         let peer_id = peer_id.clone();
         async_rt::task::spawn(async move {
@@ -192,6 +194,8 @@ impl SocketSend for PubSocket {
                     break;
                 }
             }
+            #[cfg(feature = "verif-hooks")]
+            crate::verif_hooks::yield_point("pub.send.between_subscribers").await;
             iter = subscriber.next_async().await;
         }
         for peer in dead_peers {
